@@ -523,7 +523,7 @@ class EvalMixin:
             self.raise_('AttributeError', '%s object has no attribute %r' % (obj.shape.cls, name))
         if type(obj).__name__ == 'VNamespace':
             if name not in obj.d:
-                raise ContractError('final.%s: no such local at exit' % name)
+                return SNone()      # not bound on this path
             return obj.d[name]
         if isinstance(obj, VModule):
             return self.module_attr(obj, name)
